@@ -6,6 +6,7 @@ import (
 	"fmt"
 	"os"
 	"path/filepath"
+	"strconv"
 	"text/template"
 
 	"github.com/gardenbed/charm/ui"
@@ -316,7 +317,8 @@ func formatRunes(runes []rune) string {
 	var b bytes.Buffer
 
 	for _, r := range runes {
-		fmt.Fprintf(&b, "'%c', ", r)
+		// A rune literal in Go syntax: quotes, backslashes, control and non-printable characters are escaped.
+		fmt.Fprintf(&b, "%s, ", strconv.QuoteRune(r))
 	}
 
 	if len(runes) > 0 {
